@@ -285,10 +285,10 @@ def write_evidence(prop, tier, seed, cov, wall, violations, assumptions):
         import jsonschema
         schema = json.load(open("/root/.vp/EVIDENCE.schema.json"))
         jsonschema.validate(ev, schema)
-    except ImportError:
+    except (ImportError, FileNotFoundError):
         pass
-    except FileNotFoundError:
-        pass
+    except Exception as e:
+        print("[%s] warning: evidence does not validate: %s" % (prop.pid, str(e).splitlines()[0]), flush=True)
     p = os.path.join(EVID, prop.pid + ".json")
     json.dump(ev, open(p + ".tmp", "w"), indent=1, default=str)
     os.replace(p + ".tmp", p)
